@@ -155,6 +155,17 @@ def gen_oks(rng):
         else:
             prs.append(gen_pose(rng, n_nodes, n_ed, R, p_nan, shape="free"))
     two_d = [n_gt == 1 and rng.random() < 0.3, n_pr == 1 and rng.random() < 0.3]
+    # image-sized coordinates and float32 arrays (what inference produces): every coordinate of the
+    # case is shifted by a large dyadic offset, exactly representable in float32 (k/8 < 2^21)
+    f32 = rng.random() < 0.3
+    if rng.random() < 0.35 and R <= 400:
+        off = [F(rng.choice([512, 1000, 4096, 20000])) for _ in range(n_ed)]
+        sh = lambda poses: [[[None if v is None else v + off[d] for d, v in enumerate(p)] for p in pose] for pose in poses]
+        gts, prs = sh(gts), sh(prs)
+    if f32:
+        return {"kind": "oks", "n_ed": n_ed, "n_nodes": n_nodes, "gts": gts, "prs": prs,
+                "sc": gen_sc(rng, n_gt), "sd": gen_sd(rng, n_nodes), "coco": rng.random() < 0.6,
+                "two_d": two_d, "sub": rng.randrange(1 << 30), "f32": True}
     return {"kind": "oks", "n_ed": n_ed, "n_nodes": n_nodes, "gts": gts, "prs": prs,
             "sc": gen_sc(rng, n_gt), "sd": gen_sd(rng, n_nodes), "coco": rng.random() < 0.6,
             "two_d": two_d, "sub": rng.randrange(1 << 30)}
@@ -297,10 +308,12 @@ class Impl:
         from sleap_nn.tracking import utils as tu
         self.np, self.ev, self.tu = np, ev, tu
 
-    def arr(self, poses, n_nodes, n_ed, two_d=False):
+    def arr(self, poses, n_nodes, n_ed, two_d=False, f32=False):
         np = self.np
         a = np.array([[[np.nan if v is None else float(v) for v in p] for p in pose] for pose in poses],
                      dtype=np.float64).reshape(len(poses), n_nodes, n_ed)
+        if f32:
+            a = a.astype(np.float32)      # generated coordinates are k/8 < 2^21: exact in float32
         return a[0] if two_d else a
 
     def oks(self, gts, prs, c, sc="case", two_d=(False, False)):
@@ -314,8 +327,8 @@ class Impl:
             kw["stddev"] = float(c["sd"][1]) if c["sd"][0] == "s" else np.array([float(v) for v in c["sd"][1]])
         if not c["coco"]:
             kw["use_cocoeval"] = False
-        g = self.arr(gts, c["n_nodes"], c["n_ed"], two_d[0])
-        p = self.arr(prs, c["n_nodes"], c["n_ed"], two_d[1])
+        g = self.arr(gts, c["n_nodes"], c["n_ed"], two_d[0], c.get("f32", False))
+        p = self.arr(prs, c["n_nodes"], c["n_ed"], two_d[1], c.get("f32", False))
         g0, p0 = g.copy(), p.copy()
         try:
             with warnings.catch_warnings():
@@ -368,6 +381,13 @@ def val_of(entry):
     return s / nv
 
 
+F32_ATOL, F32_RTOL = 2e-6, 2e-4        # float32 inputs: the area / scale / distance arithmetic runs in float32
+
+
+def tol(c):
+    return (F32_ATOL, F32_RTOL) if c.get("f32") else (ATOL, RTOL)
+
+
 def close(a, b, atol=ATOL, rtol=RTOL):
     if a is None or b is None:
         return a is None and b is None
@@ -397,11 +417,13 @@ def oracle_oks(c, impl, out, flags, rng):
             return (f"compute_oks raises IndexError for n_pr = {n_pr}", SEL_F22)
         return (f"compute_oks raises {out[1]}", None)
     M = out[1]
+    eps = 2e-5 if c.get("f32") else 1e-12
+    ta, tr_ = tol(c)
     dom = [n_vis(g) >= 1 for g in gts]
     for i in range(n_gt):
         for j in range(n_pr):
             v = M[i][j]
-            if dom[i] and not (math.isfinite(v) and -1e-12 <= v <= 1 + 1e-12):
+            if dom[i] and not (math.isfinite(v) and -eps <= v <= 1 + eps):
                 return (f"oks[{i}][{j}] = {v} outside [0,1]", None)
     can_matrix = flags["F22"]
 
@@ -413,7 +435,7 @@ def oracle_oks(c, impl, out, flags, rng):
     for i in range(n_gt):
         if dom[i]:
             v = pair(i, gts[i])
-            if v is None or abs(v - 1) > 1e-12:
+            if v is None or abs(v - 1) > eps:
                 return (f"identical poses: oks(gt{i}, gt{i}) = {v} != 1", None)
     for i in range(n_gt):
         if not dom[i]:
@@ -430,7 +452,7 @@ def oracle_oks(c, impl, out, flags, rng):
                     p2[k] = [None] * c["n_ed"] if rng.random() < 0.4 else \
                         [F(rng.randint(-800, 800), 8) for _ in range(c["n_ed"])]
                 v = pair(i, p2)
-                if v is None or not close(v, base):
+                if v is None or not close(v, base, ta, tr_):
                     return (f"gt-missing keypoints {miss} influence oks[{i}][{j}]: {base} -> {v}", None)
             vis = [k for k in range(len(g)) if visible(g[k])]
             k = rng.choice(vis)
@@ -440,10 +462,10 @@ def oracle_oks(c, impl, out, flags, rng):
             p3 = [list(q) for q in p]
             p3[k] = [g[k][0] + F(10 ** 12)] + list(g[k][1:])
             v2, v3 = pair(i, p2), pair(i, p3)
-            if v2 is None or v3 is None or not close(v2, v3) or v2 > base + 1e-12:
+            if v2 is None or v3 is None or not close(v2, v3, ta, tr_) or v2 > base + eps:
                 return (f"prediction keypoint {k} missing: oks {v2}, infinitely far {v3}, before {base}", None)
             others = n_vis(g) - 1
-            if v2 > others / n_vis(g) + 1e-12:
+            if v2 > others / n_vis(g) + eps:
                 return (f"missing prediction keypoint {k} still contributes: {v2} > {others}/{n_vis(g)}", None)
             # moving one predicted keypoint farther from its target never increases oks
             if visible(p[k]):
@@ -458,11 +480,13 @@ def oracle_oks(c, impl, out, flags, rng):
                     p4 = [list(x) for x in p]
                     p4[k] = q
                     v4 = pair(i, p4)
-                    if v4 is None or v4 > base + 1e-12:
+                    if v4 is None or v4 > base + eps:
                         return (f"moving predicted keypoint {k} farther increases oks[{i}][{j}]: {base} -> {v4}", None)
     # translation of both poses
     if n_gt and n_pr:
-        t = [F(rng.randint(-64, 64), 8) for _ in range(c["n_ed"])]
+        big = rng.random() < 0.4          # image-sized translations (float32: up to 2^12 so that k/8 stays exact)
+        t = [F(rng.choice([-4096, -1000, 512, 1000, 4096])) if big else F(rng.randint(-64, 64), 8)
+             for _ in range(c["n_ed"])]
         tr = lambda poses: [[[None if v is None else v + t[d] for d, v in enumerate(p)] for p in pose] for pose in poses]
         if can_matrix or n_pr == 1:
             r = impl.oks(tr(gts), tr(prs), c)
@@ -470,7 +494,7 @@ def oracle_oks(c, impl, out, flags, rng):
                 return (f"translated input raises {r[1]}", None)
             for i in range(n_gt):
                 for j in range(n_pr):
-                    if dom[i] and not close(r[1][i][j], M[i][j], atol=1e-10, rtol=1e-7):
+                    if dom[i] and not close(r[1][i][j], M[i][j], atol=max(1e-10, ta), rtol=max(1e-7, tr_)):
                         return (f"translation by {enc(t)} changes oks[{i}][{j}]: {M[i][j]} -> {r[1][i][j]}", None)
     # reordering instances permutes the matrix
     if n_gt >= 2 or (n_pr >= 2 and can_matrix):
@@ -485,7 +509,7 @@ def oracle_oks(c, impl, out, flags, rng):
                 return (f"permuted input raises {r[1]}", None)
             for a, i in enumerate(pg):
                 for b, j in enumerate(pp):
-                    if not close(r[1][a][b], M[i][j]):
+                    if not close(r[1][a][b], M[i][j], ta, tr_):
                         return (f"reordering instances does not permute the matrix at gt {i} pr {j}", None)
     return None
 
@@ -632,7 +656,7 @@ def eval_case(c, m, impl, flags, rng):
         else:
             for i, row in enumerate(m):
                 for j, e in enumerate(row):
-                    if not close(out[1][i][j], val_of(e)):
+                    if not close(out[1][i][j], val_of(e), *tol(c)):
                         diff = f"oks[{i}][{j}]: impl {out[1][i][j]} model {val_of(e)}"
         bad = oracle_oks(c, impl, out, flags, random.Random(c.get("sub", 0)))
         return diff, bad, out
